@@ -82,6 +82,20 @@ func main() {
 		fmt.Println("usage: jrpcheck -property Cxx [-tier quick|thorough] [-repo dir]")
 		os.Exit(2)
 	}
+	if *selftest {
+		code := 0
+		for _, id := range ids {
+			st := runSelfTest(*repo, id)
+			for _, d := range st.Details {
+				fmt.Println(d)
+			}
+			fmt.Printf("selftest property=%s ran=%d failed=%d skipped=%d\n", id, st.Ran, st.Failed, st.Skipped)
+			if st.Failed > 0 {
+				code = 2
+			}
+		}
+		os.Exit(code)
+	}
 	ff, ferr := loadFindings(filepath.Join(verifDir(), "known_findings.json"))
 	if ferr != nil {
 		ff = &FindingsFile{}
